@@ -113,7 +113,8 @@ def bpf_primitives(chk, repo):
     need(addr_st, "_lookup_elem: the buffer's address is never taken")
     prefix = lk.body[:addr_st[0]]
     addr_expr = [c for c in ast.walk(lk.body[addr_st[0]]) if isinstance(
-        c, ast.Call) and (dotted(c.func) or "").endswith("from_buffer")]
+        c, ast.Call) and ((dotted(c.func) or "").endswith("from_buffer")
+                          or (dotted(c.func) or "") == "addrof")]
     need(addr_expr and isinstance(addr_expr[0].args[0], ast.Name),
          "_lookup_elem: c_char.from_buffer(<buffer>) not found")
     bufname = addr_expr[0].args[0].id
@@ -446,6 +447,22 @@ def percpu(chk, repo):
                  and isinstance(n.value, str)}
         called = {dotted(n.func) for n in ast.walk(val)
                   if isinstance(n, ast.Call)}
+        # a helper of this package that computes the number: look into it
+        for n in ast.walk(val):
+            if isinstance(n, ast.Call):
+                tgt = resolve_callee(repo, n)
+                h_ = None
+                try:
+                    h_ = repo.func(tgt) if isinstance(tgt, str) else None
+                except AnalysisError:
+                    h_ = None
+                if h_ is not None:
+                    for y in ast.walk(h_):
+                        if isinstance(y, ast.Constant) and isinstance(
+                                y.value, str):
+                            texts.add(y.value)
+                        if isinstance(y, ast.Call):
+                            called.add(dotted(y.func))
         # names bound by enclosing with-statements: open("...possible")
         srcs = set(texts)
         for p in parents(stmt):
